@@ -46,7 +46,10 @@ theorem gen_same_ishape_agree {α} (l : List (Op α)) : Gen.checkLinopsSameIshap
     simp only [Gen.checkLinopsSameIshape, sameShapes]
     congr 1
     funext B
-    by_cases h : B.ishape = A.ishape <;> simp [h]
+    by_cases h : B.ishape = A.ishape
+    · simp [h]
+    · have h' : ¬ A.ishape = B.ishape := fun e => h e.symm
+      simp [h, h']
 
 /-- the generated `_check_linops_same_oshape` is the model's `sameShapes Op.oshape` -/
 theorem gen_same_oshape_agree {α} (l : List (Op α)) : Gen.checkLinopsSameOshape l = sameShapes Op.oshape l := by
@@ -56,7 +59,10 @@ theorem gen_same_oshape_agree {α} (l : List (Op α)) : Gen.checkLinopsSameOshap
     simp only [Gen.checkLinopsSameOshape, sameShapes]
     congr 1
     funext B
-    by_cases h : B.oshape = A.oshape <;> simp [h]
+    by_cases h : B.oshape = A.oshape
+    · simp [h]
+    · have h' : ¬ A.oshape = B.oshape := fun e => h e.symm
+      simp [h, h']
 
 /-- the generated `_check_compose_linops` (loop over `zip(linops[:-1], linops[1:])`) is the model's `composeOk` -/
 theorem gen_compose_guard_agree {α} : ∀ (l : List (Op α)), Gen.checkComposeLinops l = composeOk l
@@ -420,12 +426,34 @@ theorem gen_stop_eq (ind : List Nat) (nops n : Nat) :
     simp only [h, hc, if_false]
     cases ind[n]? <;> rfl
 
+/-- the same selections in equivalent spellings (`if n != 0: … else: start = 0`, `if n + 1 == self.nops`) -/
+theorem gen_start_eq' (ind : List Nat) (n : Nat) :
+    (if n ≠ (0 : Nat) then bindO (pyIndex ind (((n : Nat) : Int) - (1 : Int))) fun t1 => .ok t1
+      else (.ok (0 : Nat) : Except Err Nat)) = startG ind n := by
+  rw [← gen_start_eq]
+  by_cases h : n = 0 <;> simp [h]
+
+theorem gen_stop_eq' (ind : List Nat) (nops n : Nat) :
+    (if (n + (1 : Nat)) = nops then (.ok none : Except Err (Option Nat))
+      else bindO (pyIndex ind ((n : Nat) : Int)) fun t2 => .ok (some t2)) = stopG ind nops n := by
+  rw [← gen_stop_eq]
+  by_cases h : n + 1 = nops
+  · have hc : ((n : Nat) : Int) = ((nops : Nat) : Int) - 1 := by omega
+    simp [h, hc]
+  · have hc : ¬ ((n : Nat) : Int) = ((nops : Nat) : Int) - 1 := by omega
+    simp [h, hc]
+
+/-- `ndim - 1 - axis` is `ndim - axis - 1` -/
+theorem sub_one_sub (a b : Int) : a - 1 - b = a - b - 1 := by omega
+
+set_option linter.unusedSimpArgs false in
 theorem hstackStep_ok {α} [Add α] [Zero α] (l : List (Op α)) (nops : Nat) (axis : Option Int) (ind : List Nat) (x : NDArr α)
     (acc : PyAcc α) (n : Nat) (A : Op α) (s : Nat) (e : Option Nat) (p y : NDArr α)
     (hs : startG ind n = .ok s) (he : stopG ind nops n = .ok e) (hp : slabG axis A.ishape x s e = .ok p)
     (hy : A.call p = .ok y) :
     Gen.hstackApplyStep l nops axis ind x acc (n, A) = bindE (npAdd acc y) fun r => .ok (some r) := by
-  simp only [Gen.hstackApplyStep, gen_linopCall_eq_call, gen_start_eq, gen_stop_eq, hs, he, bindE_ok]
+  simp only [Gen.hstackApplyStep, gen_linopCall_eq_call, gen_start_eq, gen_stop_eq, gen_start_eq', gen_stop_eq', sub_one_sub,
+    hs, he, bindE_ok]
   cases axis with
   | none =>
     simp only [slabG] at hp
@@ -802,11 +830,13 @@ def writeG {α} (axis : Option Int) (opShape : List Nat) (out : NDArr α) (s : N
   | none => npSetItem out [PySlice.range s e] (npRavel y)
   | some ax => if opShape.length = 0 then .error .apply else npSetItem out (slcG ax opShape.length s e) y
 
+set_option linter.unusedSimpArgs false in
 theorem vstackStep_ok {α} [Add α] [Zero α] (l : List (Op α)) (nops : Nat) (axis : Option Int) (ind osh : List Nat) (x : NDArr α)
     (out : NDArr α) (n : Nat) (A : Op α) (s : Nat) (e : Option Nat) (y : NDArr α)
     (hs : startG ind n = .ok s) (he : stopG ind nops n = .ok e) (hy : A.call x = .ok y) :
     Gen.vstackApplyStep l nops axis ind osh x out (n, A) = writeG axis A.oshape out s e y := by
-  simp only [Gen.vstackApplyStep, gen_linopCall_eq_call, gen_start_eq, gen_stop_eq, hs, he, hy, bindE_ok, bindE_pure]
+  simp only [Gen.vstackApplyStep, gen_linopCall_eq_call, gen_start_eq, gen_stop_eq, gen_start_eq', gen_stop_eq', sub_one_sub,
+    hs, he, hy, bindE_ok, bindE_pure]
   cases axis with
   | none => rfl
   | some ax =>
